@@ -5,7 +5,13 @@ from diff import Case
 from gen import *
 
 THEOREMS = ["C06_vxlan_transparent", "C06_vxlan_header_decodes", "C06_gre_transparent", "C06_erspan1_transparent",
-            "C06_erspan2_transparent", "C06_erspan2_counts", "C06_one_per_packet"]
+            "C06_erspan2_transparent", "C06_erspan2_counts", "C06_one_per_packet",
+            # nesting to any depth, library level, sequence numbers over histories (Props/C06b.v)
+            "C06_nesting_transparent", "C06_nesting_total", "C06_nesting_injective", "C06_lib_vxlan_encap", "C06_lib_vxlan_dgram",
+            "C06_lib_erspan1_encap", "C06_lib_gre_encap", "C06_lib_erspan2_encap", "C06_lib_defs", "C06_lib_is_layer",
+            "C06_lib_dispatch", "C06_erspan2_history", "C06_erspan2_history_fresh", "C06_gre_history", "C06_other_calls_frame"]
+PROPS = ["C06", "C06b"]
+VO = ["theories/Props/C06.vo", "theories/Props/C06b.vo"]
 RULE = ("relational pairs: a program emitting inner packets (any builder, single packets and sequences, sizes from the "
         "14-byte bare frame up to 1400 bytes, raw and framed) and the same program with every emission wrapped in 1..4 "
         "nested tunnel sessions (VXLAN dgram/encap, GRE, ERSPAN I, ERSPAN II) in random order with random session "
